@@ -25,6 +25,15 @@ CLAIMED = {
    note=TRUST + "Unpack.v reference semantics of indexing/slicing/unpacking is hand-written from the language reference and validated against CPython by differential execution.",
    technique="Coq proof (induction over the target list, lia arithmetic on negative indices/slices) over the converter model + generated operator table + AST correspondence + differential execution",
    ref="5/C13"),
+ "C16": dict(
+   text="Theorems over the argument machine Cli.v (option table regenerated from config.py): C16_bad_option_no_output - for every "
+        "argument list, if any -C is malformed, unknown or illegal the run is an error and the effect trace is empty (the output file "
+        "is neither opened nor written); C16_good_options_effects - otherwise read, then open+write (or print) exactly the text for "
+        "the accumulated options, --unparser applied last; C16_output_touched_only_on_success. argparse, file I/O and exit status "
+        "are CPython's and are observed by running the real command line.",
+   note=TRUST + "Cli.v is a hand-written model of __main__.py tied by running generated command lines through the model and the real CLI in subprocesses (exit status, stdout, bytes of a pre-existing output file).",
+   technique="Coq proof over an argument/effect-trace machine with generated option table + subprocess correspondence",
+   ref="5/C16"),
 }
 PENDING_REASON = "not yet built in this round: model/theorem under construction (see DESIGN.md section 8 build order); not claimed until its minimum is proved and tied"
 ALL = [f"C{i:02d}" for i in range(1, 18)]
